@@ -59,6 +59,40 @@ def meta_crosscheck(binary):
     return mine
 
 
+def table_rules():
+    """the rules the compiled table represents, decoded in Python (used to widen the search when the
+    table and the list no longer agree)"""
+    tr = load_translator("psl_table")
+    try:
+        c, text, nodes, children = tr.parse(os.path.join(common.REPO, "public-suffix/src/tld_list.rs"))
+    except SystemExit:
+        return []
+    out = []
+    def mask(k): return (1 << k) - 1
+    def walk(lo, hi, path, depth):
+        if depth > 12:
+            return
+        for i in range(lo, min(hi, len(nodes))):
+            x = nodes[i]
+            ln = x & mask(c["NODES_BITS_TEXT_LENGTH"]); x >>= c["NODES_BITS_TEXT_LENGTH"]
+            off = x & mask(c["NODES_BITS_TEXT_OFFSET"]); x >>= c["NODES_BITS_TEXT_OFFSET"] + c["NODES_BITS_ICANN"]
+            ci = x & mask(c["NODES_BITS_CHILDREN"])
+            if ci >= len(children):
+                continue
+            u = children[ci]
+            clo = u & mask(c["CHILDREN_BITS_LO"]); u >>= c["CHILDREN_BITS_LO"]
+            chi = u & mask(c["CHILDREN_BITS_HI"]); u >>= c["CHILDREN_BITS_HI"]
+            ty = u & mask(c["CHILDREN_BITS_NODE_TYPE"]); u >>= c["CHILDREN_BITS_NODE_TYPE"]
+            w = u & mask(c["CHILDREN_BITS_WILDCARD"])
+            p = path + (bytes(text[off:off + ln]),)
+            if ty == c["NODE_TYPE_NORMAL"]: out.append((p, "KNormal"))
+            elif ty == c["NODE_TYPE_EXCEPTION"]: out.append((p, "KExc"))
+            if w: out.append((p, "KWild"))
+            walk(clo, chi, p, depth + 1)
+    walk(0, c["NUM_TLD"], (), 0)
+    return out
+
+
 FILL = [b"a", b"www", b"x1", b"foo-bar", b"com", b"co", b"city", b"uk", b"jp", b"xn--55qx5d", b"*", b"b", b"example", b"0"]
 
 
@@ -154,7 +188,7 @@ def term(d, o):
 
 def run_cases(run, binary, cases, tag):
     ins = [{"op": "psl", "d": d} for _, d in cases]
-    outs = common.harness_run(binary, ins)
+    outs = common.harness_run(binary, ins, timeout=300)
     terms = [term(d, o) for (_, d), o in zip(cases, outs)]
     res = common.coq_eval(tag, PREAMBLE, terms, ["agree", "oracle"], shard=max(40, min(400, len(terms) // 16 + 1)),
                           shard_chars=400000)
@@ -208,6 +242,19 @@ def check(run):
     except common.Tie as t:
         proof_tie = proof_tie or t
 
+    # termination probe: a lookup that does not return is a crash in the sense of the property, and must not
+    # stall the batch runs below
+    for shape, d in corpus()[:12] + [("probe", "nosuchlabel.example.zzinvalid")]:
+        o = common.harness_one(binary, {"op": "psl", "d": d}, timeout=10)
+        if o.get("crash"):
+            run.violation({"kind": "a lookup does not return (or kills the process)", "shape": shape,
+                           "case": {"op": "psl", "d": d}, "observed": o, "broken": proof_tie.what if proof_tie else None})
+            run.cov.update({"evaluations": 1, "distinct_nontrivial": 1, "explanation": "lookup crashed/timed out in the probe"})
+            return
+
+    if proof_tie is not None:
+        # widen the search: also the rules the table represents (a rule dropped from the list shows up here)
+        rules = sorted(set(rules) | set(table_rules()))
     cases = corpus() + gen_cases(run, rules, everything=proof_tie is not None)
     ins, outs, terms, res = run_cases(run, binary, cases, PROP)
     reported = report(run, cases, ins, outs, res, proof_tie)
